@@ -5,8 +5,10 @@
    odl/operator/operator.py and the block operators BroadcastOperator /
    ReductionOperator / DiagonalOperator / ProductSpaceOperator (sparse matrix
    with holes) of pspace_ops.py (any number of blocks;
-   product-space elements are flat lists) over the leaf operators of
-   default_ops.py / ufunc_ops.py; [eval] = _call; [derivative] = the .derivative methods
+   product-space elements are flat lists; cn(n) is re ++ im, with only its
+   real-linear structure) over the leaf operators of default_ops.py /
+   ufunc_ops.py / tensor_ops.py (19 kinds, incl. PointwiseNorm/-Inner, RealPart,
+   ImagPart, ComplexModulus(Squared)); [eval] = _call; [derivative] = the .derivative methods
    (with the "linear => self" shortcuts, the inner points, the overloads used
    to assemble the result); [deriv_ok] = whether the call returns or raises;
    [is_lin] = the flag computed by the constructors; [wt] = their space checks.
@@ -26,7 +28,7 @@
                      differentiable: no 0 for reciprocal / negative powers,
                      positive arguments for sqrt / log, cos <> 0 for tan.
                      point-wise norm > 0 (exponent 2) / no zero entry (exponent 1)
-                     for PointwiseNorm.  (Norm/Dist singularities are covered by
+                     for PointwiseNorm, |z| > 0 for ComplexModulus.  (Norm/Dist singularities are covered by
                      [deriv_ok]: the code raises there.) *)
 From Coq Require Import Reals List Bool ZArith.
 From Verif Require Import Base.Num Base.Vec C06.Syntax Gen.UfuncDeriv C06.Model C06.Calc C06.Lin C06.LinMap C06.Leaves C06.Proofs.
